@@ -36,7 +36,8 @@ prop('C01',
      'an indefinite header was written; identifier/length octet guards partition the octet domain as X.690 8.1.2/8.1.3 '
      'prescribes on both sides; OPTIONAL/DEFAULT skips precede component encoding.  Content-octet arithmetic and value '
      'equality are not decided.'
-     '  Also: A per-component encoder option (ifNotEmpty) is taken out of the options before they reach the component\'s own components; the end-of-octets probe is requested only at element boundaries; payload decoders read the encoding form from the base tag.',
+     '  Also: A per-component encoder option (ifNotEmpty) is taken out of the options before they reach the component\'s own components; the end-of-octets probe is requested only at element boundaries; payload decoders read the encoding form from the base tag.'
+     '  The BER record encoder does not omit empty OPTIONAL components (class constant); the effective tag set of an untagged CHOICE follows nested untagged CHOICEs.',
      {'A1.total': 60, 'A1.pair': 80, 'A7.tag': 30, 'A1.chain': 12, 'A1.lookup': 5, 'A7.unit': 3, 'A8.pair': 20,
       'W.enc': 8, 'W.dec': 10, 'C04.default': 4, 'W.realbase': 2, 'W.realexp': 3, 'W.sized': 6, 'W.segtag': 2, 'W.real10': 3, 'A5.itemopt': 2, 'A8.probe': 9, 'A6.form': 9, 'W.bitslice': 2, 'A1.omit': 2})
 
@@ -46,7 +47,8 @@ prop('C02',
      'CER/DER tables are derived from and total w.r.t. BER, fixed encoder modes match X.690 9/10 and override caller '
      'options, codec families pair up, string segments agree between the CER writer and every reader, end-of-octets '
      'pairs with the indefinite header.  Equality of decoded values is not decided.'
-     '  Also: A per-component encoder option is not inherited by the component\'s components; the end-of-octets probe is requested only at element boundaries; the segments of a chunked string get a re-tagged spec on every path; base-10 REAL triples are normalised whatever they were initialised from.',
+     '  Also: A per-component encoder option is not inherited by the component\'s components; the end-of-octets probe is requested only at element boundaries; the segments of a chunked string get a re-tagged spec on every path; base-10 REAL triples are normalised whatever they were initialised from.'
+     '  BIT STRING equality compares value and length (it is the DEFAULT test of the canonical record encoders).',
      {'A1.total': 120, 'A1.pair': 150, 'A1.modes': 8, 'A1.derived': 8, 'A7.tag': 60, 'A8.pair': 20, 'W.realexp': 3, 'A1.cerreal': 2, 'W.sized': 6, 'W.segtag': 2, 'A5.itemopt': 2, 'W.segspec': 3, 'A8.probe': 9, 'W.real10in': 3, 'W.bitslice': 2, 'A1.omit': 2, 'W.biteq': 2})
 
 prop('C03',
@@ -66,7 +68,8 @@ prop('C04',
      'depend on insertion order); DEFAULT components equal to their default and absent OPTIONALs are skipped before '
      'encoding in all four record loops; deep copies visit every stored component.  History independence itself '
      '(lazy placeholders never changing the bytes) is not decided.'
-     '  Also: Base-10 REAL triples are normalised whatever the initialiser; the deep copy of a SEQUENCE OF value is a value (cleared before the walk, schema objects left alone).',
+     '  Also: Base-10 REAL triples are normalised whatever the initialiser; the deep copy of a SEQUENCE OF value is a value (cleared before the walk, schema objects left alone).'
+     '  BIT STRING equality compares value and length.',
      {'C04.default': 4, 'C04.clone': 4, 'A9.reg': 4, 'C04.optional': 4, 'A10.order': 3, 'A6.defsib': 4, 'A1.cerreal': 2, 'W.sized': 6, 'W.real10in': 3, 'C04.copyvalue': 2, 'W.biteq': 2})
 
 prop('C05',
@@ -76,7 +79,8 @@ prop('C05',
      'consumer loop forwards underrun objects untouched and runs nothing else on them; the result is the last item and '
      'nothing follows it.  By induction on suspension points the decoder state after any arrival schedule equals that of '
      'the one-shot run.  tell()-difference arithmetic is not decided.'
-     '  Also: A value received from a raw read() is known not to be None wherever it is used as octets, and the wrapper\'s answer always contains the octets it took from its cache.',
+     '  Also: A value received from a raw read() is known not to be None wherever it is used as octets, and the wrapper\'s answer always contains the octets it took from its cache.'
+     '  isEndOfStream answers by position only for an in-memory BytesIO.',
      {'A2.cons': 50, 'A2.prod': 70, 'A2.retry': 4, 'A2.last': 50, 'A2.slot': 3, 'A2.drop': 12, 'A2.reads': 5, 'A2.probe': 1, 'A2.eosloop': 1, 'A2.ended': 1, 'A12.none': 5, 'A12.cache': 3, 'A12.eospos': 1})
 
 prop('C06',
@@ -90,7 +94,8 @@ prop('C07',
      [A.rule_c07_len, A.rule_c07_eoo, G.rule_oneshot, G.rule_drop, A.rule_a8_pairing, G.rule_last, G.rule_iter_total, Z.rule_cache_key, Z.rule_cache_reset, Z.rule_position_loops, G.rule_retry, R3.rule_method_identity, R3.rule_eoo_identity, W.rule_encode_header, R4.rule_effective_tag_recurses, T.rule_ber_lax],
      'Exactly one encoding is consumed: consumed-vs-announced length check on every path before an item completes; the '
      'end-of-octets probe un-reads exactly what it read; remainder read from the same stream; no read result dropped; '
-     'the encoder appends end-of-octets iff it wrote an indefinite header.  Numeric correctness of lengths is not decided.',
+     'the encoder appends end-of-octets iff it wrote an indefinite header.  Numeric correctness of lengths is not decided.'
+     '  The effective tag set of an untagged CHOICE follows nested untagged CHOICEs.',
      {'C07.len': 1, 'C07.eoo': 3, 'A2.oneshot': 3, 'A8.pair': 20, 'A2.drop': 12, 'A5.methid': 2, 'A8.eooid': 8, 'A10.efftag': 1})
 
 prop('C08',
@@ -100,7 +105,8 @@ prop('C08',
      'Python-protocol raise), partial operations on wire octets are guarded, no placeholder / raw octets reach a result '
      'yield, every loop makes progress and the item decoder state graph is acyclic, the anchored format checks refuse '
      'exactly the octet values X.690 excludes.  The numeric step bound is not decided.'
-     '  Also: Tables looked up with a key computed from wire octets are inside try/except or behind a membership test; string segments of mixed kind (octets / decoded objects) reach no bytes-only operation; the text codecs of the string types are strict.',
+     '  Also: Tables looked up with a key computed from wire octets are inside try/except or behind a membership test; string segments of mixed kind (octets / decoded objects) reach no bytes-only operation; the text codecs of the string types are strict.'
+     '  Reflected addition of the string types puts the left operand first; a table keyed by a wire octet is guarded by the exception its kind raises.',
      {'A3.raise': 100, 'A3.partial': 18, 'A13.value': 20, 'A14.progress': 12, 'A14.states': 8, 'A3.tagmap': 4,
       'W.content': 15, 'A2.probe': 1, 'W.real10': 3, 'A3.segjoin': 5, 'C10.strictdec': 5, 'W.radd': 2})
 
@@ -109,20 +115,23 @@ prop('C09',
      'BER decoder stays lax where X.690 allows choice: any non-zero TRUE, constructed strings with OCTET STRING '
      'segments (nested too), indefinite lengths, long-form lengths with leading zeros, SET members looked up by tag in '
      'any position in both length forms (sibling agreement of the record loops).  Length arithmetic is not decided.'
-     '  Also: The end-of-octets probe is requested only at element boundaries; the constructed BIT STRING of no segments is read like its indefinite twin; the encoding form is read from the base tag.',
+     '  Also: The end-of-octets probe is requested only at element boundaries; the constructed BIT STRING of no segments is read like its indefinite twin; the encoding form is read from the base tag.'
+     '  Reflected addition of the string types puts the left operand first (nested indefinite segments are accumulated with it); the effective tag set of a CHOICE recurses.',
      {'A1.lax': 35, 'A7.tag': 30, 'A7.nested': 4, 'A6.spec': 3, 'W.dec': 10, 'W.sized': 6, 'A5.methid': 2, 'A1.alias': 12, 'A8.eooid': 8, 'A8.probe': 9, 'A3.segjoin': 5, 'A6.form': 9, 'A6.zeroseg': 1, 'C10.reqset': 1, 'A10.efftag': 1, 'W.radd': 2})
 
 prop('C10', [A.rule_c10, A.rule_a6_spec, X.rule_nonevalue, A.rule_c14, Z.rule_choice_result, A.rule_a6_optdef, Z.rule_constraint_denotation, Z.rule_bits_padding, R3.rule_container_cleared, R4.rule_strict_text_codecs, R4.rule_consistency_consults, R4.rule_required_set, M.rule_a9_setof, R4.rule_omit_empty_modes, R4.rule_bitstring_equality],
      'Spec-guided exits of the constructed decoders: required components present; constraints (isInconsistent) checked '
      'before the value is returned; result is an ASN.1 object built from the guiding type.  The re-encode fixpoint is not decided.'
-     '  Also: The text codecs of the string types use the strict error handler; isInconsistent answers \'consistent\' only after the constraints were asked (or there are none).',
+     '  Also: The text codecs of the string types use the strict error handler; isInconsistent answers \'consistent\' only after the constraints were asked (or there are none).'
+     '  BIT STRING equality compares value and length; the BER record encoder does not omit empty OPTIONAL components.',
      {'C10.req': 2, 'C10.cons': 6, 'A13.value': 20, 'C10.strictdec': 5, 'C14.consult': 4, 'C10.reqset': 1, 'A1.omit': 2, 'W.biteq': 2})
 
 prop('C11', [M.rule_a12, G.rule_reads_confined, Z.rule_cache_reset, R.rule_eos_by_read, R3.rule_eos_poll, G.rule_retry, R4.rule_raw_read_none, R4.rule_eos_by_position_only_inmemory, Z.rule_no_next],
      'Substrate kinds are told apart only in codec/streaming.py (total dispatch, library error otherwise); the caching '
      'wrapper keeps tell()/seek() coordinates stable while the decoder holds positions; reads go through the wrapper.  '
      'Byte-for-byte refinement of the wrapper over all operation histories is not decided.'
-     '  Also: A value received from a raw read() is known not to be None wherever it is used as octets.',
+     '  Also: A value received from a raw read() is known not to be None wherever it is used as octets.'
+     '  isEndOfStream answers by position only for an in-memory BytesIO.',
      {'A12.kinds': 4, 'A12.total': 6, 'A12.origin': 1, 'A12.cache': 3, 'A12.eos': 2, 'A2.eosloop': 1, 'A12.none': 5, 'A12.eospos': 1})
 
 prop('C12',
@@ -131,7 +140,8 @@ prop('C12',
      'Purity: encoders read the value only through accessors that do not write to it (write-effect fixpoint over the '
      'type modules); decoders mutate only objects they created; every call-time write to shared state is enumerated and '
      'classified; codec singletons are stateless and caches per call; code that runs only with logging on is effect-free '
-     'and obeys the generator protocol.  Thread interleavings are argued from "no shared writes", not explored.',
+     'and obeys the generator protocol.  Thread interleavings are argued from "no shared writes", not explored.'
+     '  Module-level code of the CER / DER / native codec modules stores attributes only on codec instances it has just made, never on the instances shared with the parent codec\'s tables.',
      {'A5.value': 15, 'A5.spec': 12, 'A5.census': 8, 'A5.stateless': 40, 'A5.log': 40, 'A2.cons.log': 50, 'A5.encread': 1, 'A5.memo': 1, 'A1.alias': 12, 'A1.shared': 1})
 
 prop('C13', [T.rule_x680, A.rule_c13, W.rule_encode_header, W.rule_decode_header, Z.rule_encode_tag_arms, Z.rule_cache_key, R4.rule_form_by_base_tag, R4.rule_bit_slice, R4.rule_set_members_keep_spec],
@@ -139,40 +149,46 @@ prop('C13', [T.rule_x680, A.rule_c13, W.rule_encode_header, W.rule_decode_header
      'keeping its form), comparison/hash keys cover class+number of every level, subtype() routes the tagging options, '
      'one identifier per tag prepended outermost-first, the decoder accepts only on tag equality / tag-map membership, '
      'identifier-octet guards match X.690 8.1.2.  Multi-octet identifier arithmetic is decided only up to its guards.'
-     '  Also: Every payload decoder reads the encoding form from the base tag of the recovered tag set.',
+     '  Also: Every payload decoder reads the encoding form from the base tag of the recovered tag set.'
+     '  Under a schema the CER / DER SET encoder pairs every member with the schema\'s component type.',
      {'C13.expl': 2, 'C13.impl': 1, 'C13.cmp': 9, 'C13.sub': 2, 'C13.enc': 1, 'C13.dec': 1, 'C13.model': 3, 'A1.x680': 35, 'A6.form': 9, 'W.bitslice': 2, 'C13.setspec': 1})
 
 prop('C14', [A.rule_c14, Z.rule_constraint_denotation, R.rule_sizespec_fold, A.rule_c04_clone, R4.rule_consistency_consults, R4.rule_adding_narrows, R4.rule_encoders_check_first, R4.rule_set_constraint_operators],
      'Single constraint funnel for scalar payloads (who-may-write + must-pass-through), derivation only extends '
      'constraints and records ancestry, encoders refuse inconsistent constructed values.  The set-theoretic denotation '
      'of the _testValue comparisons is not decided.'
-     '  Also: isInconsistent of the container bases answers \'consistent\' only after the constraints were asked; adding a constraint to a union builds the intersection of the union and the operand.',
+     '  Also: isInconsistent of the container bases answers \'consistent\' only after the constraints were asked; adding a constraint to a union builds the intersection of the union and the operand.'
+     '  `-` and `+` of value-set constraints are set difference and union.',
      {'C14.funnel': 2, 'C14.init': 4, 'C14.extend': 3, 'C14.enc': 5, 'C14.vmap': 4, 'C14.fold': 2, 'C14.consult': 4, 'C14.narrow': 4, 'C14.encall': 3, 'C14.setops': 2})
 
 prop('C15', [T.rule_lookup_shape, T.rule_chain, T.rule_strict, W.rule_decode_header, W.rule_content_guards, Z.rule_constructed_yields, R3.rule_table_alias, Z.rule_cache_key, R4.rule_derived_tables_fresh_instances, R4.rule_strict_boolean_results, A.rule_c13],
      'Strictness switches resolved per codec x lookup path by constant evaluation of the codec tables: strict BOOLEAN '
      'accepts exactly {00, FF}, every DER string codec refuses the constructed form, DER refuses indefinite length; the '
      'refusals dominate value decoding; every nested element goes through the same item decoder (slot binding).'
-     '  Also: The tag-set cache of the item decoder is keyed by everything that determines the tag set.',
+     '  Also: The tag-set cache of the item decoder is keyed by everything that determines the tag set.'
+     '  The strict BOOLEAN decoder yields only components built after the 00 / FF test; the DER table loop makes fresh codec instances.',
      {'A1.strict': 40, 'A1.chain': 12, 'A1.alias': 12, 'A1.shared': 1, 'A1.strictres': 1})
 
 prop('C16', [T.rule_total_bytag, X.rule_nonevalue, T.rule_pair_ber, Z.rule_schemaless_tags, Z.rule_cache_key, R.rule_prototypes, R3.rule_encoder_by_type, R3.rule_eoo_identity, R3.rule_container_cleared, R3.rule_scalar_result_tags, R4.rule_dynamic_order, R4.rule_spec_is_callers, Z.rule_bits_prepend, R3.rule_sized_length],
      'Schemaless decoding: by-tag table total over universal types and paired with the right codec family; no '
-     'None/placeholder/raw octets reach a result yield.  Leaf equality and re-encode identity are not decided.',
+     'None/placeholder/raw octets reach a result yield.  Leaf equality and re-encode identity are not decided.'
+     '  Scalar payload decoders pass on the guiding type they were given (never the prototype) to the component constructor.',
      {'A1.total': 80, 'A13.value': 20, 'A1.proto': 60, 'A1.enctype': 60, 'A8.eooid': 8, 'C16.dynorder': 3, 'A6.specparam': 8})
 
 prop('C17', [T.rule_total_native, A.rule_c17_contra, A.rule_a6_record_arms, A.rule_c04_default, Z.rule_native_record, M.rule_a9_dynamic, R.rule_omissions, R.rule_as_binary, R3.rule_native_scalar_value, R4.rule_segment_handover, R4.rule_items_positional, R4.rule_native_list_cleared, R4.rule_native_of_decoders, R4.rule_set_members_keep_spec, R4.rule_oid_text_arcs],
      'Native tables total over all types; in the python-value arms the OPTIONAL-absent skip is satisfiable and precedes '
      'the raising lookup; value arm and python arm take the same OPTIONAL/DEFAULT/open-type actions.  Native round trip '
      'of values is not decided.'
-     '  Also: Octets (or any BIT STRING value) with a tagged spec get re-tagged segment specs like a value object; items() / values() of the record base yield one element per position (the native encoder pairs by position); the native decoder turns [] into an empty value.',
+     '  Also: Octets (or any BIT STRING value) with a tagged spec get re-tagged segment specs like a value object; items() / values() of the record base yield one element per position (the native encoder pairs by position); the native decoder turns [] into an empty value.'
+     '  The native decoder resolves SET OF / SEQUENCE OF to the list decoder and SET / SEQUENCE to the record decoder; OID text arcs reach int() unmodified.',
      {'A1.total': 55, 'A4.contra': 4, 'A6.arms': 2, 'A6.omit': 8, 'W.binstr': 2, 'W.segspec': 3, 'C17.items': 2, 'C17.clear': 1, 'A1.nativeof': 4, 'C13.setspec': 1, 'W.oidtext': 1})
 
 prop('C18', [A.rule_a8_dec, X.rule_nonevalue, T.rule_pair_ber, Z.rule_any_capture_yields, Z.rule_option_scope, A.rule_a6_open, R.rule_opentype_map_ref, R3.rule_opentype_truthy, R3.rule_open_skips, R3.rule_open_types_flag, R3.rule_method_identity, E.rule_option_latch, R4.rule_any_catch_all],
      'Raw capture of an indefinite-length TLV is complete (header re-read <=> end-of-octets appended); raw octets are '
      'handed back only to a collecting caller; ANY resolves to the ANY codec in every by-type table.  Equality of the '
      'resolved value is not decided.'
-     '  Also: The ANY decoder\'s collector identity test compares the same function object; the open-types flag does not depend on OPTIONAL / DEFAULT.',
+     '  Also: The ANY decoder\'s collector identity test compares the same function object; the open-types flag does not depend on OPTIONAL / DEFAULT.'
+     '  The tag map of an ANY, tagged or not, has the ANY as its default type.',
      {'A8.dec': 1, 'A13.raw': 1, 'A6.mapref': 1, 'A6.truthy': 3, 'A6.openskip': 6, 'A6.anymap': 1})
 
 prop('C19', [S.rule_field, S.rule_pep479, S.rule_companion, S.rule_commit, S.rule_bounds, S.rule_schema_ops, A.rule_c04_clone, R.rule_position_order, R4.rule_copy_is_value, R4.rule_dynamic_order, R4.rule_schema_plugs],
@@ -180,7 +196,8 @@ prop('C19', [S.rule_field, S.rule_pep479, S.rule_companion, S.rule_commit, S.rul
      'generators; CHOICE keeps the chosen index in step with the store (companion state, single writer); setters '
      'validate before they commit; instantiating readers bound the position; scalar operators reach the payload only '
      'through operations the noValue sentinel plugs.  Refinement of a list/dict model over histories is not decided.'
-     '  Also: The deep copy of a SEQUENCE OF / SET OF value is a value, that of a schema object a schema object.',
+     '  Also: The deep copy of a SEQUENCE OF / SET OF value is a value, that of a schema object a schema object.'
+     '  NoValue exempts only life-cycle / attribute hooks from the raising plug.',
      {'A10.field': 6, 'A10.pep479': 8, 'A10.companion': 2, 'A10.single': 8, 'A10.commit': 2, 'A10.bounds': 2, 'A10.schema': 60, 'A10.order': 3, 'C04.copyvalue': 2, 'C16.dynorder': 3, 'A10.plug': 1})
 
 prop('C20', [M.rule_a11_offset, M.rule_a11_trim, Z.rule_trim_start, M.rule_a11_parse, R.rule_memo_key, R.rule_fraction_pair, R.rule_offset_division, R3.rule_time_length_last, R4.rule_offset_verbatim],
